@@ -267,8 +267,12 @@ def worker(case, led):
                     try:
                         cur.try_swap_site(new_model, swap_jw=False, algo=algo if algo != "qr" else "Hopcroft-Karp")
                     except Exception as e:
-                        led.check(False, "post:Mpo.try_swap_site:total", "Mpo.try_swap_site", f"raised {type(e).__name__}: {e}", key + ("swap", sw), fields,
-                                  dict(rep, algo=algo, swap=i))
+                        import traceback
+                        tb = traceback.extract_tb(e.__traceback__)[-1]
+                        fl = dict(fields, exception=type(e).__name__, raised_in=tb.name, statement=(tb.line or "").strip(), swap_number=sw)
+                        led.check(False, "post:Mpo.try_swap_site:total", "Mpo.try_swap_site",
+                                  f"swap #{sw} of sites {i},{i + 1} raised {type(e).__name__} in {tb.name}: `{(tb.line or '').strip()}` {e}", key + ("swap", sw), fl,
+                                  dict(rep, algo=algo, swap=i, swap_number=sw))
                         break
                     cur_ref = P @ cur_ref @ P.T
                     cur_dims[i], cur_dims[i + 1] = cur_dims[i + 1], cur_dims[i]
